@@ -38,6 +38,13 @@ CORPUS = [
     ('sup_ty', 'W<_ŠČ0, _ŠČ1>', 'W<u8>', 'neg'),
     ('sup_path', 'Tr<_ŠČ0>', 'Tr<Vec<i32>, u8>', 'neg'),
     ('sup_path', 'Iterator<>', 'Iterator<Item = _ŠČ0>', 'neg'),
+    # order-sensitive operators are never matched crosswise (seed C09i)
+    ('sup_ty', '[u8; { 1 < 2 } as usize]', '[u8; { 2 < 1 } as usize]', 'neg'),
+    ('sup_expr', '1 < _ŠČ0', 'N < 1', 'neg'),
+    ('sup_expr', '1 <= _ŠČ0', 'N <= 1', 'neg'),
+    ('sup_expr', '1 > _ŠČ0', 'N > 1', 'neg'),
+    ('sup_expr', '1 >> _ŠČ0', 'N >> 1', 'neg'),
+    ('sup_expr', 'true && _ŠČ0', 'N && true', 'neg'),
 ]
 
 
